@@ -7,6 +7,7 @@ use std::panic::{catch_unwind, AssertUnwindSafe};
 mod sparseset;
 mod plevel;
 mod plevel_ext;
+mod lp;
 
 pub fn parse_list(tok: &str) -> Vec<i32> {
     if tok == "-" || tok.is_empty() {
@@ -33,6 +34,7 @@ fn main() {
         "solve" => plevel::run_solve,
         "ctx" => plevel::run_ctx,
         "view" => plevel::run_view,
+        "lp" => lp::run_case,
         _ => {
             eprintln!("unknown sub-command {}", sub);
             std::process::exit(2);
